@@ -59,6 +59,15 @@ func main() {
 			r := ruleByID(o.Rule)
 			fmt.Printf("%s %s [%s] %s %s :: %s\n", o.Status, o.Rule, strings.Join(r.Props, ","), o.Pos, o.Key, o.Detail)
 		}
+		if os.Getenv("JMESCHECK_COUNTS") != "" {
+			cnt := map[string]int{}
+			for _, o := range res.Obs {
+				cnt[o.Rule]++
+			}
+			for _, r := range allRules {
+				fmt.Printf("COUNT %s %d floor=%d\n", r.ID, cnt[r.ID], r.Floor)
+			}
+		}
 		fmt.Printf("allrules: %d obligations, %d not discharged\n", len(res.Obs), bad)
 		if bad > 0 {
 			os.Exit(1)
